@@ -553,10 +553,49 @@ def rule_read_length(prog, fixture=False):
     return r
 
 
+# ---------------------------------------------------------------- R-C10-7
+def rule_counters_after_reset(prog, fixture=False, rule_id="R-C10-7"):
+    r = RuleResult(rule_id, "zlib contract: inflateReset() restarts the stream's total_in/total_out counters, so in "
+                   "a function that resets the stream they are never used as a position in the file (fseek/fsetpos/"
+                   "lseek argument): from the second member on such a seek goes back into data already consumed",
+                   floor=0)
+    for fn in prog.functions.values():
+        resets = []
+        for n in fn.walk():
+            if n.get("k") == "CallExpr" and notpl(n.get("q") or "") in ("inflateReset", "inflateReset2"):
+                resets.append(n)
+            elif is_call(n) and n.get("fn"):
+                for t in prog.call_targets(fn, n):
+                    if any(m.get("k") == "CallExpr" and notpl(m.get("q") or "") in ("inflateReset", "inflateReset2") for m in t.walk()):
+                        resets.append(n)
+        if not resets:
+            continue
+        k = 0
+        uses = 0
+        for n in fn.walk():
+            if n.get("k") == "MemberExpr" and n.get("n") in ("total_in", "total_out"):
+                uses += 1
+                seek = None
+                for a in fn.ancestors(n):
+                    if a.get("k") == "CallExpr" and notpl(a.get("q") or "").split("::")[-1] in ("fseek", "fseeko", "fsetpos", "lseek", "seekg"):
+                        seek = a
+                        break
+                if seek is not None:
+                    k += 1
+                    r.add("%s::%s::%s-as-position#%d" % (fn.relfile(), fn.qn, n.get("n"), k), fn.loc(seek), False,
+                          "`%s`: %s counts from the last inflateReset(), not from the start of the file; for the "
+                          "second member of a multi-member gzip file this seeks back into data already decompressed "
+                          "(the same data is produced again, possibly for ever)" % (show(seek)[:70], n.get("n")))
+        r.add("%s::%s::resets-stream" % (fn.relfile(), fn.qn), fn.loc(resets[0]), True,
+              "resets the inflater; %d uses of its counters, none as a file position" % uses if not k else
+              "resets the inflater", nontrivial=True)
+    return r
+
+
 def run(ctx):
     prog = ctx.prog("dfs", "N")
     return [rule_hint_name(prog), rule_gzip_only(prog), rule_zlib_census(prog), rule_all_members(prog),
-            rule_openers(prog), rule_read_length(prog)]
+            rule_openers(prog), rule_read_length(prog), rule_counters_after_reset(prog)]
 
 
 SELFTESTS = [
@@ -565,4 +604,5 @@ SELFTESTS = [
     (rule_zlib_census, ["c10_bad.cc"], ["c10_good.cc"], "inflateValidate"),
     (rule_all_members, ["c10_bad.cc"], ["c10_good.cc"], "members"),
     (rule_read_length, ["c10_read_bad.cc"], ["c10_read_good.cc"], "resize#1"),
+    (rule_counters_after_reset, ["c10_seek_bad.cc"], ["c10_seek_good.cc"], "total_in-as-position"),
 ]
